@@ -132,13 +132,14 @@ func init() {
 		x.Raw("  lockCalls : Nat            -- Lock/RLock calls anywhere in the body")
 		x.Raw("  condWait : Bool            -- body calls <recv>.cond.Wait()")
 		x.Raw("  broadcasts : Nat           -- calls of <recv>.cond.Broadcast() in the body")
+		x.Raw("  waitConds : List String    -- condition of every `for` loop whose body calls cond.Wait(), in order")
 		x.Raw("deriving Repr, DecidableEq")
 		var items []string
 		for _, lt := range lockTargets {
 			name := lt.dir + "." + lt.recv + "." + lt.method
 			fd := x.Func(lt.dir, lt.recv, lt.method)
 			if fd == nil || fd.Body == nil || fd.Recv == nil || len(fd.Recv.List[0].Names) != 1 {
-				items = append(items, fmt.Sprintf("  ⟨%s, false, [], none, false, 0, 0, false, 0⟩", LeanStr(name)))
+				items = append(items, fmt.Sprintf("  ⟨%s, false, [], none, false, 0, 0, false, 0, []⟩", LeanStr(name)))
 				continue
 			}
 			rv := fd.Recv.List[0].Names[0].Name
@@ -185,12 +186,34 @@ func init() {
 				}
 				return true
 			})
+			var waitConds []string
+			ast.Inspect(fd.Body, func(n ast.Node) bool {
+				fs, ok := n.(*ast.ForStmt)
+				if !ok {
+					return true
+				}
+				waits := false
+				ast.Inspect(fs.Body, func(m ast.Node) bool {
+					if c, ok := m.(*ast.CallExpr); ok {
+						if s, ok := c.Fun.(*ast.SelectorExpr); ok && s.Sel.Name == "Wait" {
+							if in, ok := s.X.(*ast.SelectorExpr); ok && in.Sel.Name == "cond" {
+								waits = true
+							}
+						}
+					}
+					return true
+				})
+				if waits {
+					waitConds = append(waitConds, LeanStr(x.Src(fs.Cond)))
+				}
+				return true
+			})
 			la := "none"
 			if lockAt >= 0 {
 				la = fmt.Sprintf("some %d", lockAt)
 			}
-			items = append(items, fmt.Sprintf("  ⟨%s, true, [%s], %s, %v, %d, %d, %v, %d⟩", LeanStr(name),
-				strings.Join(kinds, ", "), la, deferNext, explicit, locks, condWait, broadcasts))
+			items = append(items, fmt.Sprintf("  ⟨%s, true, [%s], %s, %v, %d, %d, %v, %d, [%s]⟩", LeanStr(name),
+				strings.Join(kinds, ", "), la, deferNext, explicit, locks, condWait, broadcasts, strings.Join(waitConds, ", ")))
 		}
 		x.Raw("def methods : List Method := [\n" + strings.Join(items, ",\n") + "\n]")
 	})
